@@ -70,7 +70,13 @@ func StripDomain(data []byte, domain string) (res []byte) {
 func ComposeRequest(msg *dns.Msg, domain string) (data []byte) {
 	if l := len(msg.Question); l > 1 {
 		log.Debugf("Multi-query request, len=%q", l)
-		questions := append([]dns.Question{}, msg.Question...)
+		questions := make([]dns.Question, 0, l)
+		for _, q := range msg.Question {
+			// Every part of a multi-query request starts with its two-character order tag
+			if len(q.Name) >= 2 {
+				questions = append(questions, q)
+			}
+		}
 		sort.Slice(questions, func(i, j int) bool {
 			i1 := enc.Base32CharToInt(questions[i].Name[0])
 			i2 := enc.Base32CharToInt(questions[i].Name[1])
